@@ -53,6 +53,18 @@ def c02_case(draw, tier="quick"):
         d_ = ctx.new_family(k=k)
         pair = (s_, d_)
     exprs = []
+    quadratic = draw(st.integers(0, 11)) == 0
+    if quadratic:
+        # two axes tied by a product and a sum: several integer roots unless a == b (non-linear ambiguity)
+        a, b = ctx.new_axis(), ctx.new_axis()
+        extra = [u for u in pool if u[0] == "leaf"][:1]
+        prod, summ = ["flat", [a, b]], ["cat", [a, b]]
+        if draw(st.booleans()):
+            exprs.append(G.wrap(ctx, extra, extras=False) + [prod, summ])
+        else:
+            exprs.append([prod] + G.wrap(ctx, extra, extras=False))
+            exprs.append([summ])
+        n = 0
     for i in range(n):
         us = ctx.perm(ctx.subset(pool, 0.7))
         if draw(st.integers(0, 4)) == 0:
@@ -67,9 +79,13 @@ def c02_case(draw, tier="quick"):
             else:
                 us.insert(draw(st.integers(0, len(us))), ("fam", pair[0], False, "plain"))
         items = G.wrap(ctx, us)
-        if draw(st.integers(0, 5)) == 0:
-            # a concatenated axis of two fresh axes / numbers
-            ch = [ctx.new_axis() if draw(st.booleans()) else ctx.new_num(draw(st.sampled_from(G.LENS))), ctx.new_axis()]
+        if draw(st.integers(0, 4)) == 0:
+            # a concatenated axis: fresh axes / numbers, or axes of the pool (then tied to products elsewhere)
+            plain = [u[1] for u in pool if u[0] == "leaf" and u[1][0] == "ax" and not u[2]]
+            if len(plain) >= 2 and draw(st.booleans()):
+                ch = list(draw(st.permutations(plain)))[:2]
+            else:
+                ch = [ctx.new_axis() if draw(st.booleans()) else ctx.new_num(draw(st.sampled_from(G.LENS))), ctx.new_axis()]
             items.insert(draw(st.integers(0, len(items))), ["cat", ch])
         exprs.append(items)
     env = ctx.env
@@ -78,13 +94,32 @@ def c02_case(draw, tier="quick"):
         names = [k for k in env if not k.startswith("#") and env[k] > 1]
         for k in names[:3]:
             env[k] = env[k] * (2 ** draw(st.sampled_from([12, 15, 16, 20, 21])))
-    known = [draw(st.integers(0, 9)) < 7 for _ in exprs]
+        # keep every dimension below 2**50 (far beyond real tensors, far below int64)
+        guard = 0
+        while guard < 200 and any(d >= 2**50 for e in exprs for d in X.shape_of(X.expand(e), env)):
+            guard += 1
+            big = max((k for k in env if not k.startswith("#")), key=lambda k: env[k])
+            env[big] = max(2, env[big] // 1024)
+    known = [quadratic or draw(st.integers(0, 9)) < 7 for _ in exprs]
     if not any(known) and draw(st.booleans()):
         known[0] = True
     sizes, smeta = G.compute_sizes(ctx, exprs, [], known_mask=known)
     # only keep the minimal set (compute_sizes adds random redundant ones)
     minimal = {k: v for k, v in sizes.items() if k in smeta["minimal"] or k in smeta["minimal_fams"]}
+    if quadratic and draw(st.integers(0, 3)) > 0:
+        minimal = {}  # leave the quadratic system to the solver
+    nested_inner = None
+    if pair is not None and draw(st.booleans()):
+        # print "(s ds)..." as "(s ds...)...": the inner ellipsis is unconstrained by ranks, its product plays the role of ds
+        used_flat = any(it[0] == "ell" and it[1] and it[1][0][0] == "flat" and pair[1] in [l[1] for l, _ in X.walk_leaves(it[1])] for e in exprs for it in G.X_iter(e))
+        only_there = all(
+            not (it[0] == "ell" and [l[1] for l, _ in X.walk_leaves(it[1]) if l[0] == "ax"] == [pair[1]]) for e in exprs for it in G.X_iter(e)
+        )
+        if used_flat and only_there:
+            nested_inner = pair[1]
+            minimal.pop(pair[1], None)
     return {
+        "nested_inner": nested_inner,
         "ins": exprs,
         "env": dict(env),
         "known": known,
@@ -222,6 +257,12 @@ def evaluate(case, stats):
     shapes, sizes = apply_variant(case)
     api = case["api"]
     desc = X.p_desc(case["ins"])
+    nested = case.get("nested_inner")
+    if nested:
+        import re
+
+        desc = re.sub(r"(?<![A-Za-z0-9_])" + re.escape(nested) + r"(?![A-Za-z0-9_])", nested + "...", desc)
+        sizes.pop(nested, None)
     tpls = [RS.template_of(e) for e in case["ins"]]
     psizes = plain_sizes(sizes)
     try:
@@ -236,6 +277,10 @@ def evaluate(case, stats):
     stats.count("api:" + api)
     if case["large"]:
         stats.count("feat:large")
+    if case.get("nested_inner"):
+        stats.count("feat:nested_inner_ellipsis")
+    if any(it[0] == "cat" for e in case["ins"] for it in _nodes(X.expand(e))):
+        stats.count("feat:concat")
     feats_nt = any(it[0] in ("flat", "cat") for e in case["ins"] for it in _nodes(X.expand(e))) or any(X.has_node(e, "ell") for e in case["ins"])
     if feats_nt and not (case["variant"] == "minimal" and all(case["known"]) and not sizes):
         stats.nt([desc_canon(case), [list(s) if s is not None else None for s in shapes], sorted((k, repr(v)) for k, v in psizes.items()), api])
@@ -254,6 +299,8 @@ def evaluate(case, stats):
     if len(quants) > 1:
         ambiguous = True
     nonempty = len(sols) > 0
+    if nested and api == "solve_axes":
+        ambiguous = True  # the inner repetition count cannot be reported
     must_fail = (not nonempty) or ambiguous
     must_succeed = False
     if nonempty and not ambiguous:
